@@ -3,3 +3,7 @@ package witness
 import "reflect"
 
 type reflectValue = reflect.Value
+
+func (r res) ParseErrIsNil() bool {
+	return r.pan == nil && (r.err == nil || len(r.err.Error()) < 6 || r.err.Error()[:6] != "PARSE:")
+}
